@@ -177,7 +177,7 @@ def free_port():
     return p
 
 
-def http_get(port, path, timeout=20):
+def http_get(port, path, timeout=10):
     """minimal HTTP/1.0 client: returns the body (bytes) or raises OSError"""
     s = socket.create_connection(("127.0.0.1", port), timeout=timeout)
     try:
@@ -198,9 +198,18 @@ def http_get(port, path, timeout=20):
     return raw[i + 3:]
 
 
+_T0 = time.time()
+
+
+def progress(*a):
+    """one-line progress marker on stderr: the parent prints the last of them if this process has to be killed"""
+    print("C19W %7.2f" % (time.time() - _T0), *a, file=sys.stderr, flush=True)
+
+
 def worker(argv):
     """python c19.py --worker <job.json>: runs one scenario, writes <out>/result.json, bodies, final state, trace"""
     job = json.load(open(argv[0]))
+    progress("worker start", job.get("start", "before"), job["spec"]["integ"], "N", job["spec"]["N"])
     sys.path.insert(0, job["scratch"])
     import warnings
     warnings.filterwarnings("ignore")
@@ -211,14 +220,17 @@ def worker(argv):
     open("rebound.html", "w").write("<html></html>")       # server.c:215: avoids `system(curl …)`
     devnull = os.open(os.devnull, os.O_WRONLY)               # the server printf()s
     os.dup2(devnull, 1)
+    progress("rebound imported")
     shim = ctypes.CDLL(job["shim"]) if job.get("shim") else None
     sp = job["spec"]
     sim = make_sim(rebound, sp)
+    progress("simulation built")
     res = {"ok": False}
     mode = job.get("start", "before")       # before | paused | during : when reb_simulation_start_server is called
     use_server = job.get("server", True)
 
     def fail(msg):
+        progress("FAIL", msg)
         res["infra"] = msg
         json.dump(res, open("result.json", "w"))
         sys.stdout.flush()
@@ -238,11 +250,18 @@ def worker(argv):
 
     def start_server(retries):
         for attempt in range(retries):
-            port_box["p"] = free_port()
+            port_box["p"] = free_port()           # bind(0): a port that is free right now
+            progress("start_server attempt", attempt, "port", port_box["p"])
             sim.start_server(port=port_box["p"])
+            # reb_simulation_start_server waits at most 1 s for `ready`; on a loaded machine the thread may need longer
+            deadline = time.time() + 15
+            while sim._server_data and sim._server_data.contents.ready == 0 and time.time() < deadline:
+                time.sleep(0.005)
             if sim._server_data and sim._server_data.contents.ready == 1:
                 server_ready.set()
+                progress("server ready")
                 return True
+            progress("server not ready (ready=%s): stopping" % (sim._server_data.contents.ready if sim._server_data else None))
             try:
                 sim.stop_server()
             except Exception:
@@ -275,6 +294,7 @@ def worker(argv):
         if shim and use_server:
             shim.c19_set_integrator()
         for k, tmax in enumerate(sp["tmax"]):
+            progress("integrate call", k, "to", tmax)
             if shim and use_server:
                 shim.c19_mark(0)
             sim.integrate(tmax)
@@ -301,6 +321,7 @@ def worker(argv):
             th.start()                            # the client is already knocking when the server comes up
         time.sleep(job.get("start_delay_ms", 10.0) / 1000.0)
         res["integ_done_before_start"] = integ_done.is_set()
+        progress("late start of the server, mode", mode)
         if not start_server(1):
             sim._status = -1
             fail("could not start the server on a free port (late start)")
@@ -308,15 +329,18 @@ def worker(argv):
             if th:
                 th.start()
             time.sleep(crng.uniform(0, 8.0) / 1000.0)
+            progress("resume with the space key")
             try:
                 http_get(port_box["p"], "/keyboard/32")    # space: resume (server.c:353-357)
             except OSError as e:
                 sim._status = -1
                 fail("resume request failed: %r" % (e,))
-        it.join(120)
+        it.join(50)
         if it.is_alive():
+            sim._status = 1                        # let the loop leave at the next reb_check_exit
             fail("integration did not finish")
     wall = time.time() - t0
+    progress("integration finished, bodies so far", len(bodies))
     if mode != "before" and th and job.get("linger_ms"):
         time.sleep(job["linger_ms"] / 1000.0)
     stop.set()
@@ -324,6 +348,7 @@ def worker(argv):
         th.join(30)
         if th.is_alive():
             fail("client thread did not finish")
+    progress("client joined")
     if shim and use_server:
         shim.c19_stop()
         shim.c19_dump(os.path.join(out, "trace.txt").encode())
@@ -333,7 +358,9 @@ def worker(argv):
         res["late_spins"] = shim.c19_count(-1)
         res["foreign_ser"] = shim.c19_count(-2)
     if use_server:
+        progress("stop_server")
         sim.stop_server()
+    progress("writing results")
     with open("final.bin", "wb") as f:
         f.write(sim_bytes(rebound, sim))
     for i, (after, b) in enumerate(bodies):
@@ -378,28 +405,138 @@ def check_interposable(d):
     return sorted(need - seen), "reb_simulation_save_to_stream" in seen
 
 
-def run_worker(c, d, job, shim=None, timeout=240):
-    out = tempfile.mkdtemp(prefix="job.", dir=d)
-    job = dict(job, scratch=d, out=out, shim=shim)
-    jf = os.path.join(out, "job.json")
-    json.dump(job, open(jf, "w"))
-    env = dict(os.environ)
-    if shim:
-        env["LD_PRELOAD"] = shim
-        env["C19_LIB"] = os.path.join(d, "librebound" + SUFFIX)
-    try:
-        p = subprocess.run([sys.executable, os.path.abspath(__file__), "--worker", jf], env=env,
-                           capture_output=True, text=True, timeout=timeout)
-    except subprocess.TimeoutExpired:
-        return {"ok": False, "timeout": True, "out": out}
-    res = {"ok": False}
-    rf = os.path.join(out, "result.json")
-    if os.path.exists(rf):
-        res = json.load(open(rf))
-    res["rc"] = p.returncode
-    res["stderr"] = p.stderr[-1500:]
-    res["out"] = out
-    return res
+def run_phase(c, d, mode, job, shim=None, timeout=75, retries=1, what=""):
+    """run one phase (`--worker` scenario / `--analyse` / `--parallel`) in a fresh process group with a deadline;
+    on a time-out the group is killed, the last progress markers of the worker are printed, and the phase is retried
+    once on a fresh process.  -> (status, result dict, stderr tail); status in ok | timeout | infra | died"""
+    last = ("infra", {}, "")
+    for attempt in range(retries + 1):
+        out = tempfile.mkdtemp(prefix="job.", dir=d)
+        j = dict(job, scratch=d, out=out, shim=shim, offs_blob=job.get("offs", {}).get("sizeof_blob", 12))
+        jf = os.path.join(out, "job.json")
+        json.dump(j, open(jf, "w"))
+        env = dict(os.environ)
+        if shim:
+            env["LD_PRELOAD"] = shim
+            env["C19_LIB"] = os.path.join(d, "librebound" + SUFFIX)
+        env.pop("C19_DEBUG", None)
+        p = subprocess.Popen([sys.executable, "-u", os.path.abspath(__file__), mode, jf], env=env, stdout=subprocess.DEVNULL,
+                             stderr=subprocess.PIPE, text=True, start_new_session=True)
+        try:
+            _, err = p.communicate(timeout=timeout)
+            timed_out = False
+        except subprocess.TimeoutExpired:
+            timed_out = True
+            try:
+                os.killpg(p.pid, 9)
+            except OSError:
+                pass
+            try:
+                _, err = p.communicate(timeout=10)
+            except Exception:
+                err = ""
+        tail = "\n".join((err or "").splitlines()[-30:])
+        res = {}
+        rf = os.path.join(out, "result.json")
+        if os.path.exists(rf):
+            try:
+                res = json.load(open(rf))
+            except Exception:
+                res = {}
+        res["out"] = out
+        res["rc"] = p.returncode
+        if timed_out:
+            print("[C19] phase %s %s: no result after %d s (attempt %d); process group killed; last lines of the worker:\n%s"
+                  % (mode, what, timeout, attempt + 1, tail), file=sys.stderr, flush=True)
+            last = ("timeout", res, tail)
+            continue
+        if res.get("ok"):
+            return "ok", res, tail
+        if p.returncode is not None and p.returncode < 0:
+            last = ("died", res, tail)
+            continue
+        print("[C19] phase %s %s failed (rc=%s, %s); last lines of the worker:\n%s"
+              % (mode, what, p.returncode, res.get("infra"), tail), file=sys.stderr, flush=True)
+        last = ("infra", res, tail)
+    return last
+
+
+class Rec:
+    """stand-in for the Check object inside the analysis / parallel processes: records the calls, the parent replays them"""
+
+    def __init__(self):
+        self.events = []
+        self.cov = {}
+
+    def violation(self, key, what, replay):
+        self.events.append(["violation", key, what, replay])
+
+    def count(self, key=None, nontrivial=True, n=1):
+        self.events.append(["count", key, nontrivial, n])
+
+    def sample(self, obj):
+        self.events.append(["sample", obj])
+
+    def log(self, *a):
+        progress(*a)
+
+    def replay_into(self, c):
+        pass
+
+
+def replay_events(c, events):
+    for e in events:
+        if e[0] == "violation":
+            c.violation(e[1], e[2], e[3])
+        elif e[0] == "count":
+            k = e[1]
+            c.count(tuple(k) if isinstance(k, list) else k, e[2], e[3])
+        elif e[0] == "sample":
+            c.sample(e[1])
+
+
+def analyse_main(argv):
+    """python c19.py --analyse <job.json>: search (ii) for one finished scenario, in its own process (a continuation that
+    hangs must not hang the check)"""
+    job = json.load(open(argv[0]))
+    sys.path.insert(0, job["scratch"])
+    import warnings
+    warnings.filterwarnings("ignore")
+    import rebound
+    assert os.path.abspath(rebound.__file__).startswith(job["scratch"])
+    progress("analysis start", job["tag"], job["spec"]["integ"])
+    fmt = Fmt(rebound, job["offs_blob"])
+    rec = Rec()
+    stats = {k: 0 for k in STAT_KEYS}
+    tmpdir = tempfile.mkdtemp(prefix="ld.", dir=job["out"])
+    res = json.load(open(os.path.join(job["run_out"], "result.json")))
+    res["out"] = job["run_out"]
+    analyse_bodies(rec, rebound, fmt, job["spec"], res, tmpdir, stats, job["tag"], tuple(job["racy"]) if job.get("racy") else None)
+    json.dump({"ok": True, "events": rec.events, "stats": stats, "cov": rec.cov}, open(os.path.join(job["out"], "result.json"), "w"),
+              default=str)
+    progress("analysis done")
+    return 0
+
+
+def parallel_main(argv):
+    """python c19.py --parallel <job.json>: search (i) in its own process"""
+    job = json.load(open(argv[0]))
+    sys.path.insert(0, job["scratch"])
+    import warnings
+    warnings.filterwarnings("ignore")
+    import rebound
+    assert os.path.abspath(rebound.__file__).startswith(job["scratch"])
+    fmt = Fmt(rebound, job["offs_blob"])
+    rec = Rec()
+    summary = parallel_run(rec, rebound, fmt, job["reps"], job["out"])
+    json.dump({"ok": True, "events": rec.events, "summary": summary}, open(os.path.join(job["out"], "result.json"), "w"), default=str)
+    progress("parallel done")
+    return 0
+
+
+STAT_KEYS = ("bodies", "incomplete", "not_boundary", "boundary_exact", "boundary_prologue_variant", "load_fail",
+             "continued_bitwise", "not_boundary_state", "F18a", "F18b", "F19", "not_continuable", "during_integration", "runaway",
+             "exact_but_save_load_not_continuable(C05)")
 
 
 def reference_run(rebound, fmt, sp, with_heartbeat):
@@ -424,7 +561,33 @@ def reference_run(rebound, fmt, sp, with_heartbeat):
     return sim_bytes(rebound, sim), table, ends
 
 
-def continue_to_end(rebound, fmt, b, sp, tmpdir, restore_dt=None):
+class Runaway(Exception):
+    """a continuation that takes far longer than the whole reference run (e.g. a served dt of 1e-17)"""
+
+
+def guarded_integrate(s, tmax, limit_s):
+    """sim.integrate(tmax) that cannot hang: run in a thread; after limit_s the loop is told to leave at its next
+    reb_check_exit (status >= 0) and Runaway is raised"""
+    err = []
+
+    def go():
+        try:
+            s.integrate(tmax)
+        except BaseException as e:
+            err.append(e)
+    th = threading.Thread(target=go)
+    th.daemon = True
+    th.start()
+    th.join(limit_s)
+    if th.is_alive():
+        s._status = 5           # REB_STATUS_USER: reb_check_exit returns it, the loop ends
+        th.join(20)
+        raise Runaway("integrate(%r) from t=%r with dt=%r still running after %.1f s" % (tmax, s.t, s.dt, limit_s))
+    if err:
+        raise err[0]
+
+
+def continue_to_end(rebound, fmt, b, sp, tmpdir, restore_dt=None, limit_s=30.0):
     """load a served body and continue it through the remaining integrate() calls.
     restore_dt: replay what the uninterrupted run does at the end of the call the snapshot was taken in
     (epilogue rebound.c:880-884: synchronize, dt = last_full_dt) — used to decide whether a mismatch is F18 only"""
@@ -432,12 +595,13 @@ def continue_to_end(rebound, fmt, b, sp, tmpdir, restore_dt=None):
     s._status = -1          # a snapshot served while PAUSED carries status PAUSED (it is serialised); status is not compared
     sign = 1 if sp["dt"] > 0 else -1
     first = True
+    t_end = time.time() + limit_s
     for tmax in sp["tmax"]:
         # reb_check_exit (rebound.c:684-688) regards a call as finished when |t - tmax| < 1e-12 |tmax|: t after the
         # shortened step can be one ulp off tmax
         reached = abs(tmax - s.t) < 1e-12 * abs(tmax)
         if (tmax - s.t) * sign > 0 and not reached:
-            s.integrate(tmax)
+            guarded_integrate(s, tmax, max(0.5, t_end - time.time()))
             if restore_dt is not None and first:
                 s.dt = restore_dt
             first = False
@@ -454,7 +618,9 @@ MASK = ("status", "functionpointers")
 def analyse_bodies(c, rebound, fmt, sp, res, tmpdir, stats, tag, racy=None):
     """search (ii): every served body against the reference run"""
     out = res["out"]
+    tr0 = time.time()
     final0, _, _ = reference_run(rebound, fmt, sp, False)
+    limit_s = 3.0 + 8.0 * (time.time() - tr0)      # a continuation is at most the whole run
     final1, table, ends = reference_run(rebound, fmt, sp, True)
     F0 = fmt.canon(final0, MASK)
     F1 = fmt.canon(final1, MASK)
@@ -535,16 +701,19 @@ def analyse_bodies(c, rebound, fmt, sp, res, tmpdir, stats, tag, racy=None):
                             "served snapshot (steps_done=%s of %s, %s) is not the simulation's state at that step boundary: fields %s differ"
                             % (n, ends, sp["integ"], best[:6]), dict(brep, vs_boundary=best[:8]))
             continue
-        # continuation
-        if os.environ.get("C19_DEBUG"):
-            c.log("continue body", i, "n", n, "t", t, "dt", dt, "exact", exact, "pro", pro, "best", best[:5], "ends", ends)
+        # continuation (bounded: a snapshot served with dt = 1e-17 would otherwise run for ever)
+        c.log("continue body", i, "n", n, "t", t, "dt", dt, "exact", exact, "pro", pro, "best", best[:5], "ends", ends)
+        dd = None
         try:
-            fin = fmt.canon(continue_to_end(rebound, fmt, b, sp, tmpdir), MASK)
+            fin = fmt.canon(continue_to_end(rebound, fmt, b, sp, tmpdir, limit_s=limit_s), MASK)
+            dd = Fmt.diff(F0, fin) if fin is not None else ["#unparsable"]
+        except Runaway as e:
+            stats["runaway"] += 1
+            dd = ["#runaway: " + str(e)[:120]]
         except Exception as e:
             stats["load_fail"] += 1
             c.violation("served-body-not-loadable", "served snapshot cannot be loaded/continued: %r" % (e,), brep)
             continue
-        dd = Fmt.diff(F0, fin) if fin is not None else ["#unparsable"]
         if not dd:
             stats["continued_bitwise"] += 1
             continue
@@ -552,12 +721,16 @@ def analyse_bodies(c, rebound, fmt, sp, res, tmpdir, stats, tag, racy=None):
         # step of an integrate() call the served dt is the shrunk one (last_full_dt lives on the integrator's stack):
         # restore the dt the uninterrupted run has after that call and continue again.
         explained = False
+        edt = [None]
         if n in window:
             k = min(kk for kk, e in enumerate(ends) if n in (e, e - 1))
-            edt = [fmt.scalar(cd[1], "dt", "d") for cd in table.get(ends[k], []) if cd[0] == "E" and cd[2] == k]
-            if edt:
-                fin2 = fmt.canon(continue_to_end(rebound, fmt, b, sp, tmpdir, restore_dt=edt[0]), MASK)
-                explained = fin2 is not None and not Fmt.diff(F0, fin2) and dt != edt[0]
+            edt = [fmt.scalar(cd[1], "dt", "d") for cd in table.get(ends[k], []) if cd[0] == "E" and cd[2] == k] or [None]
+            if edt[0] is not None:
+                try:
+                    fin2 = fmt.canon(continue_to_end(rebound, fmt, b, sp, tmpdir, restore_dt=edt[0], limit_s=limit_s), MASK)
+                    explained = fin2 is not None and not Fmt.diff(F0, fin2) and dt != edt[0]
+                except Runaway:
+                    explained = False
         if not explained and exact:
             # the body IS the reference run's boundary serialisation, bit for bit: that continuing a saved state does not
             # reproduce the run is then a defect of save/load (C05), not of the server protocol
@@ -665,11 +838,8 @@ def scenarios(c):
     return S
 
 
-def server_part(c, d, rebound, fmt, exe, shim, offs, boost):
-    stats = {k: 0 for k in ("bodies", "incomplete", "not_boundary", "boundary_exact", "boundary_prologue_variant", "load_fail",
-                            "continued_bitwise", "not_boundary_state", "F18a", "F18b", "F19", "not_continuable", "during_integration",
-                            "exact_but_save_load_not_continuable(C05)")}
-    tmpdir = tempfile.mkdtemp(prefix="ld.", dir=d)
+def server_part(c, d, exe, shim, offs, boost, deadline):
+    stats = {k: 0 for k in STAT_KEYS}
     S = scenarios(c)
     for _ in range((2 if boost else 0) + (7 if c.thorough else 0)):
         S = S + scenarios(c)
@@ -679,28 +849,32 @@ def server_part(c, d, rebound, fmt, exe, shim, offs, boost):
     evhist = {}
     overlap = 0
     ntr = 0
+    not_ex = c.cov.setdefault("not_exercised", [])
+    ptime = 150 if c.thorough else 75
     for si, (tag, sp, jp) in enumerate(S):
+        what = "%d/%d %s %s N=%d" % (si + 1, len(S), tag, sp["integ"], sp["N"])
+        if time.time() > deadline:
+            not_ex.append({"phase": "server scenario " + what, "reason": "time budget of the tier used up"})
+            continue
+        c.log("scenario", what)
         job = dict(spec=sp, offs=offs, delay_seed=c.rng.randint(1, 2 ** 31), server=True, **jp)
-        if os.environ.get("C19_DEBUG"):
-            c.log("scenario", si, tag, sp["integ"], "N", sp["N"], "tmax", sp["tmax"])
-        res = run_worker(c, d, job, shim=shim)
-        if not res.get("ok"):
-            if res.get("timeout") or res.get("infra") or res.get("rc") in (3,):
-                raise Infra("server scenario %s/%s did not run: %s" % (tag, sp["integ"], json.dumps(res)[:600]))
-            # the process died: run it once more; a reproducible crash is a failing input
-            res2 = run_worker(c, d, job, shim=shim)
-            if not res2.get("ok") and res2.get("rc", 0) < 0:
-                c.violation("crash-while-serving", "process died (rc=%s) while integrating %s with the server answering /simulation"
-                            % (res2.get("rc"), sp["integ"]), dict(spec=sp, scenario=tag, stderr=res2.get("stderr", "")[-600:]))
-                continue
-            raise Infra("server scenario %s/%s failed: %s" % (tag, sp["integ"], json.dumps(res)[:600]))
+        st, res, tail = run_phase(c, d, "--worker", job, shim=shim, timeout=ptime, what=what)
+        if st == "died":
+            # the process was killed by a signal on both attempts: a reproducible crash is a failing input
+            c.violation("crash-while-serving", "process died (rc=%s) twice while integrating %s with the server answering /simulation"
+                        % (res.get("rc"), sp["integ"]), dict(spec=sp, scenario=tag, stderr=tail[-600:]))
+            continue
+        if st != "ok":
+            not_ex.append({"phase": "server scenario " + what, "reason": "%s: %s" % (st, res.get("infra") or tail[-300:])})
+            continue
         if res.get("errors"):
-            raise Infra("HTTP client error in %s/%s: %s" % (tag, sp["integ"], res["errors"][:2]))
+            not_ex.append({"phase": "server scenario " + what, "reason": "HTTP client error: %s" % res["errors"][:2]})
+            continue
         cnt = res.get("counts", {})
         if cnt.get("iStepBegin", 0) != res["steps_done"] or cnt.get("sSerBegin", 0) < res["nbodies"] or \
                 cnt.get("iChkBegin", 0) == 0 or (cnt.get("iLock", 0) == 0 and cnt.get("sLock", 0) == 0 and res["nbodies"] > 0):
             # the shim did not see the library's calls (PLT interposition ineffective): cannot validate
-            raise Infra("shim blind in %s/%s: counts %s steps_done %d bodies %d" % (tag, sp["integ"], cnt, res["steps_done"], res["nbodies"]))
+            raise Infra("shim blind in %s: counts %s steps_done %d bodies %d" % (what, cnt, res["steps_done"], res["nbodies"]))
         toks = open(os.path.join(res["out"], "trace.txt")).read().split()
         for t in toks:
             evhist[t.split(":")[0]] = evhist.get(t.split(":")[0], 0) + 1
@@ -719,7 +893,7 @@ def server_part(c, d, rebound, fmt, exe, shim, offs, boost):
             elif t in ("iChkBegin", "iChkEnd1", "iChkEnd0", "iLeave"):
                 inadj = False
         line = "A tr%d " % si + " ".join(toks)
-        verdict = run_driver(exe, [line])
+        verdict = run_driver(exe, [line], timeout=60)
         if len(verdict) != 1:
             raise Infra("drv_c19 gave no verdict")
         f = verdict[0].split()
@@ -745,8 +919,19 @@ def server_part(c, d, rebound, fmt, exe, shim, offs, boost):
         if si < 3:
             c.sample({"scenario": tag, "integrator": sp["integ"], "N": sp["N"], "events": len(toks), "bodies": res["nbodies"],
                       "steps": res["steps_done"], "trace_head": " ".join(toks[:40])})
-        analyse_bodies(c, rebound, fmt, sp, res, tmpdir, stats, tag, racy)
-    got = verdicts + (run_driver(exe, mutlines) if mutlines else [])
+        # search (ii) on the bodies of this scenario, in its own process
+        ajob = dict(spec=sp, tag=tag, racy=list(racy) if racy else None, run_out=res["out"], offs=offs)
+        st, ares, tail = run_phase(c, d, "--analyse", ajob, timeout=ptime, what=what)
+        if st != "ok":
+            not_ex.append({"phase": "analysis of the served bodies of " + what, "reason": "%s: %s" % (st, tail[-300:])})
+            continue
+        replay_events(c, ares.get("events", []))
+        for k, v in ares.get("stats", {}).items():
+            stats[k] = stats.get(k, 0) + v
+        for k, v in ares.get("cov", {}).items():
+            c.cov.setdefault(k, [])
+            c.cov[k] += v
+    got = verdicts + (run_driver(exe, mutlines, timeout=120) if mutlines else [])
     lines = verdicts
     if len(got) != len(lines) + len(mutlines):
         raise Infra("drv_c19 returned %d lines for %d" % (len(got), len(lines) + len(mutlines)))
@@ -764,6 +949,7 @@ def server_part(c, d, rebound, fmt, exe, shim, offs, boost):
     mut_rej = sum(1 for g in got[len(lines):] if " REJECT " in g)
     c.cov["traces_validated_against_impl"] = accepted
     c.cov["traces_total"] = ntr
+    c.cov["scenarios_planned"] = len(S)
     c.cov["trace_events_total"] = sum(m[3] for m in metas)
     c.cov["trace_event_histogram"] = evhist
     c.cov["trace_mutants_rejected"] = "%d/%d" % (mut_rej, len(mutlines))
@@ -826,16 +1012,15 @@ def par_task(rebound, fmt, sp, tmpdir, ident):
     return a, b
 
 
-def parallel_part(c, d, rebound, fmt, boost):
-    tmpdir = tempfile.mkdtemp(prefix="par.", dir=d)
-    k = 20
-    reps = (80 if c.thorough else 6) * (4 if boost else 1)
-    ident = [0]
+def parallel_run(c, rebound, fmt, reps_specs, outdir):
+    """runs in the --parallel process; c is a Rec"""
+    tmpdir = tempfile.mkdtemp(prefix="par.", dir=outdir)
+    k = len(reps_specs[0][1])
+    reps = len(reps_specs)
     nmis = 0
     overl = []
-    for rep in range(reps):
-        same = None if rep % 2 == 0 else INTEGS[(rep // 2) % len(INTEGS)]
-        specs = par_specs(c, k, same)
+    for rep, (same, specs) in enumerate(reps_specs):
+        progress("parallel repetition", rep, "of", reps, "same-type" if same else "mixed")
         seq = []
         for i, sp in enumerate(specs):
             seq.append(par_task(rebound, fmt, sp, tmpdir, "s%d_%d" % (rep, i)))
@@ -881,8 +1066,24 @@ def parallel_part(c, d, rebound, fmt, boost):
                                 dict(spec=sp, rep=rep, same_type=same, which=["loaded", "copy"][which], fields=dd[:10]))
         if rep == 0:
             c.sample({"parallel_rep": 0, "specs": [dict(integ=s["integ"], N=s["N"], dt=s["dt"]) for s in specs[:4]]})
-    c.cov["parallel_vs_sequential"] = {"repetitions": reps, "simulations_per_repetition": k, "mismatches": nmis,
-                                       "mean_overlapping_tasks": round(sum(overl) / max(1, len(overl)), 2)}
+    return {"repetitions": reps, "simulations_per_repetition": k, "mismatches": nmis,
+            "mean_overlapping_tasks": round(sum(overl) / max(1, len(overl)), 2)}
+
+
+def parallel_part(c, d, offs, boost):
+    k = 20
+    reps = (80 if c.thorough else 6) * (4 if boost else 1)
+    reps_specs = []
+    for rep in range(reps):
+        same = None if rep % 2 == 0 else INTEGS[(rep // 2) % len(INTEGS)]
+        reps_specs.append((same, par_specs(c, k, same)))
+    c.log("parallel part: %d repetitions x %d simulations" % (reps, k))
+    st, res, tail = run_phase(c, d, "--parallel", dict(reps=reps_specs, offs=offs), timeout=900 if c.thorough else 90, what="parallel")
+    if st != "ok":
+        # the differential runs are a mandatory part of the check
+        raise Infra("parallel-vs-sequential runs did not complete (%s): %s" % (st, tail[-400:]))
+    replay_events(c, res.get("events", []))
+    c.cov["parallel_vs_sequential"] = res["summary"]
 
 
 # ---------------------------------------------------------------------------- thorough: ThreadSanitizer
@@ -913,13 +1114,14 @@ def tsan_part(c, d):
     open(os.path.join(td, "rebound.html"), "w").write("<html></html>")
     cats = {}
     unexpected = []
-    for mode in ("whfast", "whfast-unsafe", "ias15", "leapfrog"):
+    for mode in ("whfast", "whfast-unsafe", "ias15", "leapfrog", "whfast-late", "leapfrog-late", "ias15-late"):
         port = free_port()
         env = dict(os.environ, TSAN_OPTIONS="halt_on_error=0 report_signal_unsafe=0 history_size=4 second_deadlock_stack=1 exitcode=0")
         try:
-            q = subprocess.run([exe, mode, str(port), "40"], cwd=td, env=env, capture_output=True, text=True, timeout=600)
+            q = subprocess.run([exe, mode, str(port), "40"], cwd=td, env=env, capture_output=True, text=True, timeout=150)
         except subprocess.TimeoutExpired:
-            raise Infra("tsan harness timed out")
+            c.cov["tsan"] = "not completed: harness timed out in mode " + mode
+            return
         if q.returncode != 0 and "ThreadSanitizer" not in q.stderr:
             c.cov["tsan"] = "not run: harness rc=%d %s" % (q.returncode, q.stderr[-300:])
             return
@@ -950,6 +1152,15 @@ def tsan_part(c, d):
                 unexpected.append(r[:1500])
             elif "reb_simulation_start_server" in allf and "reb_server_start" in allf and not any(in_int):
                 cat = "server start-up handshake through the plain int `ready` (server.c:280 vs 716)"
+            elif "main" in [f[0] for f in fn if f] and ("reb_server_start" in allf) and not any(in_int) and not any(in_step):
+                cat = "harness polling `ready` (c19_server.c) vs server.c:280"
+            elif any(in_step) and any(in_ser):
+                cat = "STEP vs SERIALISATION (mutual exclusion broken)"
+                unexpected.append(r[:1500])
+            elif "reb_simulation_start_server" in allf and any(in_int) and not any(in_step):
+                cat = "r->server_data published by start_server without synchronisation, read by the running loop (rebound.c:842/868)"
+            elif ("main" in [f[0] for f in fn if f]) and ("reb_check_exit" in allf) and not any(in_ser):
+                cat = "r->status resumed by a plain store from another thread (as the space key does, server.c:353-357)"
             elif any(in_step) and any(in_ser):
                 cat = "STEP vs SERIALISATION (mutual exclusion broken)"
                 unexpected.append(r[:1500])
@@ -968,20 +1179,30 @@ def tsan_part(c, d):
 
 # ---------------------------------------------------------------------------- main
 def run(c):
-    limit = 2400 if c.thorough else 600
+    # hard stop: the check never hangs.  Every phase below has its own deadline (run_phase); this is the last resort.
+    # watchdog A covers the scratch build and the Lean phases (lake may have to wait for the project lock), watchdog B
+    # (started after them) the runs on the real code: 205 s in the quick tier.
+    where = ["start"]
+    limits = {"A": 900 if c.thorough else 420, "B": 1700 if c.thorough else 205}
 
-    def hung():
-        print("INFRA-FAILURE C19: watchdog: no result after %d s" % limit, file=sys.stderr)
+    def hung(which="A"):
+        print("INFRA-FAILURE C19: watchdog %s: no result after %d s; last phase: %s" % (which, limits[which], where[0]), file=sys.stderr)
         sys.stderr.flush()
+        _cleanup()
         os._exit(2)
-    wd = threading.Timer(limit, hung)
+    wd = threading.Timer(limits["A"], hung)
     wd.daemon = True
     wd.start()
+
+    def phase(name):
+        where[0] = name
+        c.log("phase:", name)
     if os.environ.get("C19_DEBUG"):
         import faulthandler
         faulthandler.dump_traceback_later(int(os.environ["C19_DEBUG"]), exit=True)
+    phase("scratch build")
     d = build()
-    rebound = use_scratch_rebound(d)
+    phase("globals tables")
     import extract_c19
     info = extract_c19.generate(d)
     c.log("globals table: %d objects, %d writable symbols, %d undefined refs, %d static mutable decls"
@@ -989,18 +1210,25 @@ def run(c):
     c.cov["globals_table"] = {k: info[k] for k in ("objects", "undefined_refs", "static_const", "static_mutable", "assigned",
                                                    "unallowed_globals", "unallowed_statics", "unallowed_libc")}
     c.cov["globals_table"]["writable_symbols"] = ["%s:%s" % (o, n) for o, t, n in info["writable_symbols"]]
+    phase("lake build RV.Props.C19 + axiom audit")
     ok = c.prove(["RV.Props.C19"])
     table_bad = bool(info["unallowed_globals"] or info["unallowed_statics"] or info["unallowed_libc"] or info["assigned"])
     if table_bad:
         c.log("NEW PROCESS-GLOBAL STATE:", info["unallowed_globals"], info["unallowed_statics"], info["unallowed_libc"], info["assigned"])
-    exe = lean_exe("drv_c19")
+    phase("lake build drv_c19")
+    exe = lean_exe("drv_c19", timeout=200)
+    wd.cancel()
+    tB = time.time()
+    wd = threading.Timer(limits["B"], hung, args=("B",))
+    wd.daemon = True
+    wd.start()
+    phase("shim + offsets + PLT check")
     shim = compile_shim(d)
     offs = measure_offsets(d)
     missing, save_plt = check_interposable(d)
     c.cov["interposable_calls_missing"] = missing
     if missing or not save_plt:
         raise Infra("library no longer calls %s through the PLT: the shim cannot observe it" % (missing or "reb_simulation_save_to_stream"))
-    fmt = Fmt(rebound, offs["sizeof_blob"])
     c.cov["rule"] = ("server scenarios: random integrator/N/dt/number of integrate() calls, a client thread fetching /simulation at random "
                      "phases, random delays injected by the shim at every protocol point; one trace per scenario through the model acceptor "
                      "(plus corrupted copies that must be rejected); every served body re-parsed by an independent parser, located in the "
@@ -1014,18 +1242,37 @@ def run(c):
     c.assumptions += ["only the /simulation request is modelled; /keyboard writes r->status outside the mutex (server.c:343-371), /screenshot is not exercised",
                       "`disjoint state` of the product theorem is the globals table, not a proof about the C code",
                       "served-snapshot comparisons ignore walltime*, status and the function-pointer flag"]
-    stats, rejected = server_part(c, d, rebound, fmt, exe, shim, offs, boost=(not ok) or table_bad)
-    c.log("server part: traces %s/%s accepted, bodies %s" % (c.cov["traces_validated_against_impl"], c.cov["traces_total"], stats))
-    parallel_part(c, d, rebound, fmt, boost=(not ok) or table_bad)
+    boost = (not ok) or table_bad
+    # mandatory part first: the differential runs of independent simulations
+    phase("parallel vs sequential")
+    parallel_part(c, d, offs, boost)
     c.log("parallel part:", c.cov["parallel_vs_sequential"])
-    if c.thorough:
+    phase("server scenarios")
+    stats, rejected = server_part(c, d, exe, shim, offs, boost, deadline=tB + (1250 if c.thorough else 150))
+    c.log("server part: traces %s/%s accepted, bodies %s" % (c.cov["traces_validated_against_impl"], c.cov["traces_total"], stats))
+    if c.thorough and time.time() - tB < 1400:
+        phase("tsan")
         tsan_part(c, d)
         c.log("tsan:", c.cov.get("tsan"))
+    ne = c.cov.get("not_exercised", [])
+    if ne:
+        # environmental: recorded, not fatal (the proofs, the tables and the differential runs above did run)
+        print("[C19] NOT EXERCISED (%d): %s" % (len(ne), json.dumps(ne)[:1500]), file=sys.stderr, flush=True)
+    c.cov["server_scenarios_exercised"] = c.cov.get("traces_total", 0)
+    wd.cancel()
 
 
 if __name__ == "__main__":
-    if len(sys.argv) > 2 and sys.argv[1] == "--worker":
-        rc = worker(sys.argv[2:])
+    if len(sys.argv) > 2 and sys.argv[1] in ("--worker", "--analyse", "--parallel"):
+        fn = {"--worker": worker, "--analyse": analyse_main, "--parallel": parallel_main}[sys.argv[1]]
+        try:
+            rc = fn(sys.argv[2:])
+        except BaseException as e:
+            import traceback
+            traceback.print_exc()
+            progress("EXCEPTION", repr(e))
+            rc = 4
         sys.stdout.flush()
+        sys.stderr.flush()
         os._exit(rc)
     main("C19", run)
